@@ -121,6 +121,18 @@ def opItemRules (req : Json) : Except String Json := do
   | .ok q => pure (okJson (.arr ((sortStrs q).map ofStr).toArray))
   | .error e => pure (errJson e)
 
+/-- `verify_all_item_rules(items, links)`: the material rules, then the product rules, of every item in turn. -/
+def opAllItemRules (req : Json) : Except String Json := do
+  let items ← (← arr (← field req "items")).mapM (fun it => do
+    let name ← toStr (← field it "name")
+    let rm ← (← arr (← field it "materials")).mapM strList
+    let rp ← (← arr (← field it "products")).mapM strList
+    pure ({ name := name, expectedMaterials := rm, expectedProducts := rp } : RuleItem))
+  let links ← (← pairs (← field req "links")).mapM (fun (k, v) => do pure ((← toStr k), (← linkArtsOf v)))
+  match verifyAllItemRules Glob.fnmatch links items with
+  | .ok _ => pure (okJson (.str "pass"))
+  | .error e => pure (errJson e)
+
 /-! ### Tagged JSON transport: `{"s":…}`, `{"i":"123"}`, `{"b":…}`, `null`, `{"f":…}`, `[…]`, `{"o":[[k,v],…]}` -/
 
 partial def jvalOf (j : Json) : Except String JVal :=
@@ -727,6 +739,7 @@ def dispatch (op : String) (req : Json) : Except String Json :=
   | "pack_rule" => opPackRule req
   | "glob" => opGlob req
   | "item_rules" => opItemRules req
+  | "all_item_rules" => opAllItemRules req
   | "verify" => opVerify req
   | "load_verify_sig" => opLoadVerifySig req
   | "canon" => opCanon req
